@@ -167,6 +167,7 @@ static thread_local bool t_isRequester = false;
 static thread_local long long t_maxWaitMs = 0;     // longest single timed wait the thread asked for (client-visible ms)
 static thread_local long long t_waitTimeouts = 0;  // timed waits that ended by time-out
 static thread_local long long t_lastDeadline = -1;
+static thread_local long long t_episodeMs = 0;       // length of the wait the thread is in (0 = a pure probe, e.g. residualDataPending)
 static thread_local long long t_episodeStartReal = 0;
 static std::atomic<long long> n_stalls{0};
 
@@ -186,6 +187,7 @@ extern "C" int pthread_cond_clockwait(pthread_cond_t* c, pthread_mutex_t* m, clo
       t_lastDeadline = vdl;
       t_episodeStartReal = realMonoNs();
       long long ms = vn < vdl ? (vdl - vn + 999999LL) / 1000000LL : 0;
+      t_episodeMs = ms;
       if (ms > t_maxWaitMs) t_maxWaitMs = ms;
     }
     else if (realMonoNs() - t_episodeStartReal > 1000000000LL && !g_wantTimeout.load())
@@ -206,7 +208,7 @@ extern "C" int pthread_cond_clockwait(pthread_cond_t* c, pthread_mutex_t* m, clo
   toTs(realMonoNs() + slice, &rts);
   int rc = real(c, m, CLOCK_MONOTONIC, &rts);
   if (rc == ETIMEDOUT && virtNowNs() < vdl) return 0;
-  if (rc == ETIMEDOUT && t_isRequester) t_waitTimeouts++;
+  if (rc == ETIMEDOUT && t_isRequester && t_episodeMs > 0) t_waitTimeouts++; // a zero-length wait is a probe, not a time-out
   return rc;
 }
 
@@ -1109,7 +1111,7 @@ static bool parseFault(const std::string& tok, Fault& f)
   if (f.cls == 'K')
   {
     auto fs = splitc(sem.substr(p), ':');
-    if (fs.size() != 3) return false;
+    if (fs.size() != 3 && fs.size() != 4) return false; // optional 4th field (residue in the transport) is for the model only
     f.asyncFail = fs[2] == "0";
   }
   auto cs = splitc(conc, ',');
@@ -1481,6 +1483,12 @@ int main()
         // vclock 0: from now on time-outs are real (the following requests take their configured time-outs in real time)
         g_realtime = t[1] == "0";
         setScale(g_realtime.load() ? 1 : 50);
+        return "ok";
+      }
+      if (t.size() == 2 && t[0] == "pause" && vh::parseNat(t[1], a) && a <= 1000)
+      {
+        // the client is idle for a while (real milliseconds): whatever the server still writes arrives on a cached connection
+        realSleepUs(static_cast<long>(a) * 1000);
         return "ok";
       }
       if (t.size() == 1 && t[0] == "stats")
